@@ -6,6 +6,7 @@ import (
 	"flag"
 	"fmt"
 	"os"
+	"runtime/debug"
 	"runtime/pprof"
 	"sort"
 	"strings"
@@ -40,6 +41,7 @@ func main() {
 	workers := flag.Int("workers", 8, "parallel workers")
 	solver := flag.String("solver", "z3", "z3 | z3-new | cvc5")
 	to := flag.Int("timeout", 20, "solver timeout per query (s)")
+	incTO := flag.Int("inctimeout", 4, "timeout (s) of the incremental solver before a fresh non-incremental process is tried")
 	maxPaths := flag.Int("maxpaths", 200000, "global path budget")
 	maxSteps := flag.Int("maxsteps", 2000000, "per-path step budget")
 	maxDepth := flag.Int("maxdepth", 200, "call depth budget")
@@ -49,8 +51,10 @@ func main() {
 	tags := flag.String("tags", "", "build tags")
 	tier := flag.Int("tier", 0, "0 quick, 1 thorough (visible to harnesses as rt.Tier())")
 	cexSamples := flag.Int("cexsamples", 0, "extra solver models per failing assertion, spread over input ranges")
+	gcPct := flag.Int("gcpercent", 100, "GOGC percentage (the engine's heap is pointer-rich; fewer collections pay off)")
 	cpuprof := flag.String("cpuprofile", "", "write cpu profile of the exploration phase")
 	flag.Parse()
+	debug.SetGCPercent(*gcPct)
 
 	t0 := time.Now()
 	cfg := &packages.Config{Mode: packages.LoadAllSyntax, Dir: *dir, Env: append(os.Environ(), "GOFLAGS=-mod=mod", "GOPROXY=off", "GOSUMDB=off", "GOTOOLCHAIN=local")}
@@ -121,7 +125,7 @@ func main() {
 		}
 		t1 := time.Now()
 		c := interp.Config{MaxObjBytes: 1 << 22, MaxSteps: *maxSteps, MaxPaths: *maxPaths, MaxDepth: *maxDepth,
-			SolverKind: *solver, SolverTO: *to, Workers: *workers, Seed: *seed, Verbose: *verbose, Tier: *tier, CexSamples: *cexSamples}
+			SolverKind: *solver, SolverTO: *to, Workers: *workers, Seed: *seed, Verbose: *verbose, Tier: *tier, CexSamples: *cexSamples, IncTO: *incTO}
 		if *budgetS > 0 {
 			c.Deadline = time.Now().Add(time.Duration(*budgetS) * time.Second)
 		}
